@@ -299,3 +299,125 @@ def c15_h(ctx):
 def c15_i(ctx):
     from . import C02 as _C02
     return _C02.c02_g(ctx)
+
+
+@obligation('C15-j', 'T1 T7', 'the cache is written back as a pair: the generator and the set of '
+            'values it has produced so far, both, after the search', floor=3,
+            necessary='a generator stored without its set (or the other way round) makes the next '
+                      'request continue a stream whose position does not match the recorded '
+                      'values: the derived seed then depends on what was requested before')
+def c15_j(ctx):
+    f = ctx.fn(GS)
+    ex = ctx.ex(f)
+    cfg = cfg_of(f)
+    loops = [n for n in own_nodes(f.node) if isinstance(n, ast.While)]
+    if len(loops) != 1:
+        ctx.undecided('search loop not found')
+    lp = loops[0]
+    # the generator that draws and the set that is updated in the loop
+    draws = [c for c in ast.walk(lp) if isinstance(c, ast.Call) and callee_name(c) == 'randint'
+             and isinstance(c.func.value, ast.Name)]
+    upd = [c for c in ast.walk(lp) if isinstance(c, ast.Call) and callee_name(c) == 'update'
+           and isinstance(c.func.value, ast.Name)]
+    if len(draws) != 1 or len(upd) != 1:
+        ctx.undecided('draw / update in the search loop not found')
+    gen, seen = draws[0].func.value.id, upd[0].func.value.id
+    w_gen = [s for (s, t, k) in ctx.stores(f, "cache['random_state']") if isinstance(s, ast.Assign)]
+    w_seen = [s for (s, t, k) in ctx.stores(f, "cache['seen']") if isinstance(s, ast.Assign)]
+    ok = len(w_gen) == 1 and len(w_seen) == 1 and \
+        ex.raw(w_gen[0].value) == ('name', gen) and ex.raw(w_seen[0].value) == ('name', seen)
+    ctx.check(ok, f, 'both fields written from the search state',
+              "cache['random_state'] = random_state; cache['seen'] = seen",
+              'the cache is not given both the generator and the set the search used', fn=f,
+              node=(w_gen or w_seen or [lp])[0])
+    if not ok:
+        return
+    hdr = cfg.by_stmt[id(lp)]
+    after = all(cfg.must_precede([hdr], ctx.node(f, s)) and not cfg.in_loop(ctx.node(f, s))
+                for s in (w_gen[0], w_seen[0]))
+    ctx.check(after, f, 'written after the search', 'after the while loop',
+              'the cache is written before the search has advanced the generator', fn=f,
+              node=w_gen[0])
+    # together: the same dominating tests, and exactly `cache is not None` (a falsy empty dict
+    # is a cache too: it must be filled)
+    g1 = [sorted(map(repr, grp)) for grp in ctx.guard_groups(f, w_gen[0])]
+    g2 = [sorted(map(repr, grp)) for grp in ctx.guard_groups(f, w_seen[0])]
+    cond = [(t, p) for grp in ctx.guard_groups(f, w_gen[0]) for (t, p) in grp]
+    about_cache = [(tn, pol) for (tn, pol) in cfg.guards_of(ctx.node(f, w_gen[0]))
+                   if tn.kind == 'test' and isinstance(tn.stmt, ast.If) and
+                   any(isinstance(x, ast.Name) and x.id == 'cache' for x in ast.walk(tn.ast))]
+    okc = g1 == g2 and len(about_cache) == 1
+    if okc:
+        (tn, pol) = about_cache[0]
+        t = ex.term(tn.ast, tn)
+        okc = (pol and match(t, pattern('cache is not None')) is not None) or \
+            ((not pol) and match(t, pattern('cache is None')) is not None)
+    ctx.check(okc, f, 'written together whenever a cache was given',
+              'if cache is not None: both stores',
+              'the two cache fields are not written under the same single test `cache is not '
+              'None` (an empty dict is a cache that must be filled)', fn=f, node=w_gen[0])
+    # every normal exit passes the write-back when a cache is given: no return between the
+    # loop and the stores
+    rr = returns(f)
+    okr = all(cfg.must_precede([ctx.node(f, w_gen[0])], ctx.node(f, r)) or
+              not cfg.exists_path_assuming(
+                  cfg.entry, ctx.node(f, r), avoiding=[ctx.node(f, w_gen[0])],
+                  assumed=[(tn, True) for tn in cfg.nodes if tn.kind == 'test' and
+                           match(ex.term(tn.ast, tn), pattern('cache is not None')) is not None])
+              for r in rr)
+    ctx.check(okr and bool(rr), f, 'no exit skips the write-back',
+              'return only after the cache was updated',
+              'a return is reachable with a cache given but not updated', fn=f,
+              node=rr[0] if rr else f.node)
+
+
+@obligation('C15-k', 'T7', 'the search starts from a matching pair: the cached generator with the '
+            'cached set, or a fresh generator with an empty set', floor=2,
+            necessary='a continued generator with an empty set (or a fresh one with the cached '
+                      'set) counts draws that do not belong to its stream')
+def c15_k(ctx):
+    f = ctx.fn(GS)
+    ex = ctx.ex(f)
+    cfg = cfg_of(f)
+    loops = [n for n in own_nodes(f.node) if isinstance(n, ast.While)]
+    if len(loops) != 1:
+        ctx.undecided('search loop not found')
+    lp = loops[0]
+    draws = [c for c in ast.walk(lp) if isinstance(c, ast.Call) and callee_name(c) == 'randint'
+             and isinstance(c.func.value, ast.Name)]
+    upd = [c for c in ast.walk(lp) if isinstance(c, ast.Call) and callee_name(c) == 'update'
+           and isinstance(c.func.value, ast.Name)]
+    if len(draws) != 1 or len(upd) != 1:
+        ctx.undecided('draw / update in the search loop not found')
+    gen, seen = draws[0].func.value.id, upd[0].func.value.id
+    hdr = cfg.by_stmt[id(lp)]
+
+    def defs(name):
+        out = []
+        for n in own_nodes(f.node):
+            if isinstance(n, ast.Assign) and isinstance(n.targets[0], ast.Name) and \
+                    n.targets[0].id == name and not cfg.in_loop(ctx.node(f, n)):
+                out.append(n)
+        return out
+    gd, sd_ = defs(gen), defs(seen)
+
+    def key(n):
+        return sorted(sorted(map(repr, grp)) for grp in ctx.guard_groups(f, n))
+    cached_g = [n for n in gd if match(ex.raw(n.value), pattern("cache['random_state']"))
+                is not None]
+    fresh_g = [n for n in gd if match(ex.term(n.value), pattern('np.random.RandomState(seed)'))
+               is not None]
+    cached_s = [n for n in sd_ if match(ex.raw(n.value), pattern("cache['seen']")) is not None]
+    fresh_s = [n for n in sd_ if match_any(ex.raw(n.value), ('set()',)) is not None]
+    ok = len(gd) == 2 and len(sd_) == 2 and len(cached_g) == 1 and len(fresh_g) == 1 and \
+        len(cached_s) == 1 and len(fresh_s) == 1
+    ctx.check(ok, f, 'two starting states', 'cached (generator, set) | fresh (RandomState(seed), '
+              'set())', 'the search does not start from either the cached pair or a fresh pair',
+              fn=f, node=(gd or sd_ or [lp])[0])
+    if not ok:
+        return
+    ctx.check(key(cached_g[0]) == key(cached_s[0]) and key(fresh_g[0]) == key(fresh_s[0]) and
+              key(cached_g[0]) != key(fresh_g[0]), f, 'generator and set come from the same source',
+              'same branch for both members of the pair',
+              'the generator and the set of seen values are taken from different sources on '
+              'some path', fn=f, node=cached_s[0])
